@@ -154,7 +154,7 @@ def generate(seed, tier, batch):
     tape = {"%d:%d" % (m, kk): rnd(r, -1, 1) for m in range(n) for kk in range(12)}
     order = r.choice([["orig", "opt", "copt"], ["opt", "orig", "copt"], ["copt", "opt", "orig"], ["opt", "copt", "orig", "opt"]])
     return {"backend": backend, "n": n, "ops": [o for o in ops if o["op"] != "BARRIER"], "tape": tape, "order": order, "cutoff": 8,
-            "reopt": r.random() < 0.4, "segs": [], "how": {}, "foreign_first": r.random() < 0.3}
+            "reopt": r.random() < 0.4, "segs": [], "how": {}, "foreign_first": r.random() < 0.3, "pure": r.random() < 0.7}
 
 
 def circ_sig(circ):
@@ -172,7 +172,7 @@ def execute(script, w):
     tscript = dict(script, backend=backend)
     tape = Tape(tscript, w, fallback)
     simenv = SimEnv(w, fallback, FaultPlan(), on_call=tape.on_call)
-    opts = {"cutoff_dim": script["cutoff"]} if backend == "fock" else {}
+    opts = {"cutoff_dim": script["cutoff"], "pure": script.get("pure", True)} if backend == "fock" else {}
     with simenv:
         simenv.rng.handler = tape
         if script.get("foreign_first"):
